@@ -886,6 +886,17 @@ def check_clear_cursor_at(prog, c, child_rel, r, root_rel, h, body):
     steps = [strip(a) for a, p in zip(cur.args, cur.extra['preds']) if p in body]
     rr = root_rel[0]
     for i0 in inits:
+        # the cursor may also start at `len - 1` read AFTER the root was released: that is the root's own entry
+        j0 = i0
+        if j0.kind == 'load' and j0.fields() == ('0',):
+            j0 = strip(j0.args[0])
+        if j0.kind == 'bin' and j0.args[0].startswith('Sub') and strip(j0.args[2]).is_const(1):
+            l0 = strip(j0.args[1])
+            if l0.kind == 'call' and l0.callee_name() == 'len' and (vec_field_of(prog, l0.args[0]) or ())[-1:] == r['free'][-1:] \
+                    and rr.point < l0.point and cfg.dominates(rr.point[0], l0.point[0]) \
+                    and not any(x is not rr and getattr(x, 'point', None) is not None and rr.point < x.point < l0.point and x.point[0] in (rr.point[0], l0.point[0])
+                                for x in [q[0] for q in child_rel]):
+                continue
         if not (i0.kind == 'call' and i0.callee_name() == 'len' and (vec_field_of(prog, i0.args[0]) or ())[-1:] == r['free'][-1:]):
             return 'the cursor does not start at the length of the free list'
         if not (i0.point < rr.point and cfg.dominates(i0.point[0], rr.point[0])):
